@@ -64,6 +64,10 @@ def base_programs(ctx, n):
         for g in sorted({gen.sibling(ctx.rng('sib', json.dumps(f), j), f) for j in range(6)} - {f}, key=json.dumps):
             for sg in 'nm':
                 out.append(([{'part': 'always', 'head': ('choice', ['a', 'b']), 'body': []}, {'part': 'always', 'head': ('norm', 'c', 0), 'body': [(sg, ('tel', f))]}], ('tel', g), 'always'))
+    # ... and operators whose symbols share characters (gen.CONFUSABLE), both ways round
+    for f, g in gen.CONFUSABLE:
+        for x, y in ((f, g), (g, f)):
+            out.append(([{'part': 'always', 'head': ('choice', ['a', 'b']), 'body': []}, {'part': 'always', 'head': ('norm', 'c', 0), 'body': [('m', ('tel', x))]}], ('tel', y), 'always'))
     # fixed family: the base program mentions a formula, the observer a formula that differs from it in ONE place (another atom, operands exchanged):
     # the closest two different formulas can be - their values, and whatever the translation shares between them, must stay apart
     c = ('atom', 'c')
